@@ -707,6 +707,9 @@ def gen_monitored(rng):
     from engines import faultsim
     inst = faultsim.gen_instance(rng)
     inst.pop('planted', None)
+    # a regularised KKT matrix (kktreg) is not the documented block system, and with it conelp no longer refuses
+    # rank-deficient data but iterates on nan: the invariants are stated for data that satisfy the rank assumptions
+    inst['options'] = {k_: v_ for k_, v_ in inst['options'].items() if k_ != 'kktreg'}
     plan = {}
     r = rng.random()
     if r < 0.5:
